@@ -113,4 +113,15 @@ META["C13"] = dict(
         "served on a closed session is always a violation.",
    technique="TLA+ spec (Pool.tla) + TLC exhaustive MC + recorded client histories validated by TLC",
    design_ref="DESIGN.md 3/C13")
+META["C07"] = dict(
+   text="Dest.tla gives the reference encoding of the destination header (DestCodec) and models the resolver cache as a history "
+        "machine with a TTL; TLC checks for every history of 5 requests over 2 hosts x 3 ports x 4 time units that the answered "
+        "port is the requested port, and that the pinned cache (deviation CacheKeepsPort) violates it. Recorded executions bind "
+        "the code: resolver histories through the real resolve_host_with_cache, the real server-side decoder fed by a scripted "
+        "peer that cuts the header at every position across frames and reads, and the real client-side encoders (Client, SOCKS5, "
+        "HTTP CONNECT, UDP association) end to end; the socket the server is about to dial is reported by a cfg-guarded hook "
+        "(also for ports where nothing listens) and Trace_Dest.tla requires address and port to equal the request (names: an "
+        "address of the host, the requested port).",
+   technique="TLA+ spec (Dest.tla cache history machine, DestCodec) + TLC exhaustive MC + recorded resolver/decoder/end-to-end traces validated by TLC",
+   design_ref="DESIGN.md 3/C07")
 NOT_YET = "check not built yet in this round (planned: DESIGN.md section 3); not claimed"
